@@ -43,8 +43,9 @@ func panicSig(r any, stack string) string {
 }
 
 type valRun struct {
-	v    *harness.Verdict
-	seen map[string]bool
+	v     *harness.Verdict
+	seen  map[string]bool
+	phase string // "" first presentation; "valid-twin"; "after-valid-twin"; "again"
 }
 
 // call runs f, turning a panic into a violation (once per signature and case).
@@ -84,11 +85,15 @@ func (r *valRun) expect(what string, o outcome, want int, edits []Edit) {
 	if o.panicked || want == 0 {
 		return
 	}
+	ph, when := "", ""
+	if r.phase != "" {
+		ph, when = "-"+r.phase, " ("+r.phase+" in the same process)"
+	}
 	switch {
 	case want > 0 && o.err != nil:
-		r.v.Failf("valid-config-rejected:"+what, "%s rejected a well-formed configuration (edits %v): %v", what, edits, o.err)
+		r.v.Failf("valid-config-rejected"+ph+":"+what, "%s rejected a well-formed configuration%s (edits %v): %v", what, when, edits, o.err)
 	case want < 0 && o.err == nil:
-		r.v.Failf("invalid-config-accepted:"+ruleOf(edits), "%s accepted a configuration broken by %v", what, edits)
+		r.v.Failf("invalid-config-accepted"+ph+":"+ruleOf(edits), "%s accepted a configuration broken by %v%s", what, edits, when)
 	}
 }
 
@@ -134,15 +139,18 @@ func writeForms(t *testing.T, m proto.Message, multiline bool) (textPath, binPat
 	return textPath, binPath
 }
 
-func checkVal(t *testing.T, c ValCase) (v harness.Verdict) {
-	ct.AllowVerificationWithNonCompliantKeys = false
-	r := &valRun{v: &v, seen: map[string]bool{}}
+// judge presents one configuration through every entry point and compares the verdicts with the
+// labels derived from edits. first: record evidence classes and go through the file forms too.
+func (r *valRun) judge(t *testing.T, c *ValCase, edits []Edit, first bool) {
+	v := r.v
 
 	// ---- labels, from the record of edits only
 	var invalid, dontcare, perSet []Edit
 	perLog := map[int][]Edit{}
-	for _, e := range c.Edits {
-		v.Class("edit:" + e.Name)
+	for _, e := range edits {
+		if first {
+			v.Class("edit:" + e.Name)
+		}
 		switch e.Verdict {
 		case "invalid":
 			invalid = append(invalid, e)
@@ -167,23 +175,25 @@ func checkVal(t *testing.T, c ValCase) (v harness.Verdict) {
 	if len(dontcare) > 0 {
 		whole = 0
 	}
-	v.NonTrivial = len(c.Edits) > 0
-	v.Class(fmt.Sprintf("invalid-edits=%d", len(invalid)), fmt.Sprintf("logs=%d", len(c.Logs)))
-	if c.Multi {
-		v.Class("form:multi", fmt.Sprintf("backends=%d", len(c.Backends)))
-	} else {
-		v.Class("form:single")
-	}
-	switch {
-	case whole > 0:
-		v.Class("expect:accept")
-	case whole < 0:
-		v.Class("expect:reject")
-	default:
-		v.Class("expect:dontcare")
-	}
-	for i := range c.Logs {
-		v.Class("log:" + kindOfLog(&c.Logs[i]))
+	if first {
+		v.NonTrivial = len(edits) > 0
+		v.Class(fmt.Sprintf("invalid-edits=%d", len(invalid)), fmt.Sprintf("logs=%d", len(c.Logs)))
+		if c.Multi {
+			v.Class("form:multi", fmt.Sprintf("backends=%d", len(c.Backends)))
+		} else {
+			v.Class("form:single")
+		}
+		switch {
+		case whole > 0:
+			v.Class("expect:accept")
+		case whole < 0:
+			v.Class("expect:reject")
+		default:
+			v.Class("expect:dontcare")
+		}
+		for i := range c.Logs {
+			v.Class("log:" + kindOfLog(&c.Logs[i]))
+		}
 	}
 
 	// ---- each log on its own
@@ -208,11 +218,17 @@ func checkVal(t *testing.T, c ValCase) (v harness.Verdict) {
 		want := label(perSet)
 		o := r.call("ValidateLogConfigs", func() error { return ctfe.ValidateLogConfigs(logs) })
 		r.expect("ValidateLogConfigs", o, want, perSet)
-		observe(&v, o)
+		if first {
+			observe(v, o)
+		}
 
 		set := &configpb.LogConfigSet{Config: logsOf(c.Logs)}
-		tp, bp := writeForms(t, set, c.Multiline)
-		for _, f := range []struct{ form, path string }{{"text", tp}, {"binary", bp}} {
+		forms := []struct{ form, path string }{}
+		if first {
+			tp, bp := writeForms(t, set, c.Multiline)
+			forms = append(forms, struct{ form, path string }{"text", tp}, struct{ form, path string }{"binary", bp})
+		}
+		for _, f := range forms {
 			var loaded []*configpb.LogConfig
 			lo := r.call("LogConfigFromFile/"+f.form, func() (err error) { loaded, err = ctfe.LogConfigFromFile(f.path); return })
 			if lo.panicked {
@@ -241,7 +257,7 @@ func checkVal(t *testing.T, c ValCase) (v harness.Verdict) {
 			return err
 		})
 		r.expect("ToMultiLogConfig+ValidateLogMultiConfig", conv, want, perSet)
-		return v
+		return
 	}
 
 	// ---- LogMultiConfig
@@ -277,7 +293,7 @@ func checkVal(t *testing.T, c ValCase) (v harness.Verdict) {
 
 	// evidence only: does the set contain a repeated (backend, tree id) pair, and is every such pair
 	// separated by a log with the same id on another backend?
-	if dup, interleaved := dupShape(c.Logs); dup {
+	if dup, interleaved := dupShape(c.Logs); dup && first {
 		if interleaved {
 			v.Class("tree-id:duplicate-interleaved-only")
 		} else {
@@ -287,12 +303,18 @@ func checkVal(t *testing.T, c ValCase) (v harness.Verdict) {
 	mc := c.multiProto()
 	o := r.call("ValidateLogMultiConfig", func() error { _, err := ctfe.ValidateLogMultiConfig(mc); return err })
 	r.expect("ValidateLogMultiConfig", o, whole, invalid)
-	observe(&v, o)
+	if first {
+		observe(v, o)
+	}
 	// totality only: the single-backend validator sees the same logs (tree ids may legitimately repeat)
 	r.call("ValidateLogConfigs(multi logs)", func() error { return ctfe.ValidateLogConfigs(logsOf(c.Logs)) })
 
-	tp, bp := writeForms(t, mc, c.Multiline)
-	for _, f := range []struct{ form, path string }{{"text", tp}, {"binary", bp}} {
+	forms := []struct{ form, path string }{}
+	if first {
+		tp, bp := writeForms(t, mc, c.Multiline)
+		forms = append(forms, struct{ form, path string }{"text", tp}, struct{ form, path string }{"binary", bp})
+	}
+	for _, f := range forms {
 		var loaded *configpb.LogMultiConfig
 		lo := r.call("MultiLogConfigFromFile/"+f.form, func() (err error) { loaded, err = ctfe.MultiLogConfigFromFile(f.path); return })
 		if lo.panicked {
@@ -309,6 +331,27 @@ func checkVal(t *testing.T, c ValCase) (v harness.Verdict) {
 		}
 		vo := r.call("ValidateLogMultiConfig/"+f.form, func() error { _, err := ctfe.ValidateLogMultiConfig(loaded); return err })
 		r.expect("ValidateLogMultiConfig/"+f.form, vo, whole, invalid)
+	}
+}
+
+// checkVal judges the configuration, then - when it was broken on purpose - its well-formed twin (the
+// state just before the invalidating edits; frozen STH signatures byte-identical), then the broken one
+// again: validation must not depend on what the process validated before.
+func checkVal(t *testing.T, c ValCase) (v harness.Verdict) {
+	ct.AllowVerificationWithNonCompliantKeys = false
+	resetSignatures()
+	r := &valRun{v: &v, seen: map[string]bool{}}
+	r.judge(t, &c, c.Edits, true)
+	if c.Twin != nil {
+		v.Class("sequence:broken/twin/broken")
+		twin := ValCase{Multi: c.Multi, Logs: c.Twin.Logs, Backends: c.Twin.Backends, Multiline: c.Multiline}
+		r.phase = "valid-twin"
+		r.judge(t, &twin, nil, false)
+		r.phase = "after-valid-twin"
+		r.judge(t, &c, c.Edits, false)
+	} else if len(c.Logs) > 0 {
+		r.phase = "again"
+		r.judge(t, &c, c.Edits, false)
 	}
 	return v
 }
@@ -349,7 +392,7 @@ func observe(v *harness.Verdict, o outcome) {
 
 // Validate is the validation half of C15.
 var Validate = harness.Define(harness.Opts{
-	Name: "validate",
-	Rule: "a LogConfigSet (one backend) or LogMultiConfig (1-4 backends) of 1-6 logs that is well-formed by construction (regular / mirror / frozen / read-only logs, pool keys of eight kinds, harness-signed frozen STH, windows incl. sub-second ones, delays, EKU names, prefixes with leading/trailing/doubled slashes, mysql:// or postgres:// storage strings), then 0-5 validity-preserving edits and 0-2 invalidating edits from a catalogue with one entry per rule of the statement; presented as Go messages (ValidateLogConfig per log, ValidateLogConfigs, BuildLogBackendMap, ValidateLogMultiConfig, ToMultiLogConfig) and through LogConfigFromFile / MultiLogConfigFromFile in text and binary form. Oracle: no panic; accepted <=> no invalidating edit (labels by construction). Non-trivial: >= 1 edit",
+	Name:  "validate",
+	Rule:  "a LogConfigSet (one backend) or LogMultiConfig (1-4 backends) of 1-6 logs that is well-formed by construction (regular / mirror / frozen / read-only logs, pool keys of eight kinds, harness-signed frozen STH, windows incl. sub-second ones, delays, EKU names, prefixes with leading/trailing/doubled slashes, mysql:// or postgres:// storage strings), then 0-5 validity-preserving edits and 0-2 invalidating edits from a catalogue with one entry per rule of the statement; presented as Go messages (ValidateLogConfig per log, ValidateLogConfigs, BuildLogBackendMap, ValidateLogMultiConfig, ToMultiLogConfig) and through LogConfigFromFile / MultiLogConfigFromFile in text and binary form. Oracle: no panic; accepted <=> no invalidating edit (labels by construction). Non-trivial: >= 1 edit",
 	Quick: 3000, Thorough: 20000, MaxSample: 2500,
 }, genVal, checkVal)
